@@ -39,7 +39,7 @@ def rb_args(c, **kw):
     return a
 
 
-def book_gen(ck, name, cfg=GEN_DRAIN, need=(), timeout=600, workers=12, **kw):
+def book_gen(ck, name, cfg=GEN_DRAIN, need=(), timeout=600, workers=12, spec_flags=True, **kw):
     c = bc(**kw)
     extra = {}
     if "trunc_every" in kw:
@@ -51,7 +51,7 @@ def book_gen(ck, name, cfg=GEN_DRAIN, need=(), timeout=600, workers=12, **kw):
     for k in ("time_scale", "time_offset", "price_scale"):
         if k in kw:
             extra[k] = c.pop(k)
-    return ck.gen(name, "BookGen", c, "replay_book", rb_args(c, **extra), cfg=cfg, need=need, timeout=timeout, workers=workers)
+    return ck.gen(name, "BookGen", c, "replay_book", rb_args(c, **extra), cfg=cfg, need=need, timeout=timeout, workers=workers, spec_flags=spec_flags)
 
 
 def high(tick, pmax):
@@ -260,6 +260,13 @@ def c02(tier, seed):
     book_gen(ck, "gen_views_reload", cfg=GEN, Ops=["cap", "cancel", "reload"], NLevels=1, Prices=[10, 11], Vols=[1, 3],
              MaxOrders=3, MaxOps=4 if q else 5, need=("two_sided", "op_reload"), timeout=300 if q else 1500)
     cross(ck, q, "ties_deep", "ties_modify", "split_modify", "big_volumes", "coarse_grid")
+    # views of books that hold orders at prices off the tick grid.  Such orders exist (modify_order accepts any price: known
+    # finding F3 of C12), and C02 speaks of every moment of every book: levels are the tick multiples counted from the touch, an
+    # order elsewhere belongs to no level.  The specification runs with its named deviation FollowF3 = TRUE (BookOps.tla), i.e.
+    # it accepts the request as the code does; the deviation itself is C12's business and is not reported here.
+    book_gen(ck, "x_offgrid_resting", Ops=["cap", "modify"], Tick=2, Prices=[10, 12], Vols=[1, 2], Kinds=["L"], NLevels=3,
+             ModPrices=[-1, 10, 11, 13], ModVols=["none", "larger"], MaxOrders=3, MaxOps=4 if q else 5,
+             need=("op_modify",), timeout=300 if q else 1500, FollowF3=True, spec_flags=False)
     # every event of random histories: logged views = views recomputed by TLC from the logged order table alone
     prof = {"discipline": True, "audit_every": 1, "p_high_prices": 0.3, "w": {"toggle": 0.6, "reload": 0.4, "modify": 4}}
     ck.traces_stage("rand_views", "record_book", prof, files=8 if q else 64, runs=3 if q else 6, ops=120)
@@ -450,10 +457,12 @@ def c12(tier, seed):
     # on- and off-grid creations (tick 3), both sides, both creation calls
     book_gen(ck, "gen_create_grid", cfg=GEN, Ops=["cap", "create", "place", "cancel"], Tick=3, Prices=[9, 10, 11, 12], Vols=[1],
              MaxOrders=3, MaxOps=4 if q else 5, need=("create_rejected", "has_trade"), timeout=300 if q else 1500)
-    # on- and off-grid modifications (tick 2)
-    book_gen(ck, "gen_modify_grid", cfg=GEN, Ops=["cap", "modify"], Tick=2, Prices=[10, 12], Vols=[1, 2], Kinds=["L"],
+    # on- and off-grid modifications (tick 2).  Known finding F3 lives here: the specification runs with its named deviation
+    # FollowF3 = TRUE (an off-grid modify price is accepted, as the code does), every history must still be reproduced exactly
+    # (drain probe included), and TLC flags the histories on which its own state breaks C12_OnGrid
+    book_gen(ck, "gen_modify_grid", Ops=["cap", "modify"], Tick=2, Prices=[10, 12], Vols=[1, 2], Kinds=["L"],
              ModPrices=[-1, 10, 11, 12, 13], ModVols=["none", "larger"], MaxOrders=2 if q else 3, MaxOps=4 if q else 5,
-             need=("op_modify",), timeout=300 if q else 1500)
+             need=("op_modify",), timeout=300 if q else 1500, FollowF3=True)
     # the largest representable price as an explicit limit (2^32 - 1 is off the grid of tick 2)
     book_gen(ck, "gen_create_max", cfg=GEN, Ops=["cap", "create", "place"], Tick=2, Prices=[10, MAXPRICE], Vols=[1], MaxOrders=3,
              MaxOps=3 if q else 4, need=("create_rejected",), timeout=300)
@@ -476,13 +485,13 @@ def c12(tier, seed):
             MaxSubmits=3, MaxBatch=3, MaxSteps=2, MaxOrders=2, need=("create_rejected",), timeout=300 if q else 1500)
     # queued modify instructions with arbitrary new prices (known finding F3 lives here)
     env_gen(ck, "gen_env_grid_modify", kind="env", seeds=2, Ticks=(2,), Ops=["new", "modify", "step"], Kinds=["L"], Prices=[10], Vols=[1],
-            ModPrices=[12, 13], ModVolsAbs=[-1], MaxSubmits=3, MaxBatch=3, MaxSteps=2, MaxOrders=2, need=("has_modify",), timeout=300)
+            ModPrices=[12, 13], ModVolsAbs=[-1], MaxSubmits=3, MaxBatch=3, MaxSteps=2, MaxOrders=2, need=("has_modify",), timeout=300, FollowF3=True)
     env_traces(ck, "rand_env_grid", {"p_offgrid": 0.3, "ticks": [2, 3, 4, 5, 7, 10], "max_batch": 10, "p_step": 0.12}, files=6 if q else 48, runs=3 if q else 6, ops=200)
     prof = {"discipline": True, "audit_every": 5, "p_offgrid": 0.3, "p_high_prices": 0.3, "ticks": [2, 3, 4, 5, 6, 7, 8, 9, 10], "w": {"modify": 4, "create": 4}}
     ck.traces_stage("rand_grid", "record_book", prof, files=8 if q else 64, runs=2 if q else 4, ops=300)
     # arbitrary new prices in modify requests (known finding F3 lives here)
     prof = dict(prof, p_offgrid_modify=0.2)
-    ck.traces_stage("rand_grid_modify", "record_book", prof, files=4 if q else 16, runs=1, ops=120)
+    ck.traces_stage("rand_grid_modify", "record_book", prof, files=4 if q else 16, runs=2, ops=300, consts={"MaxPrice": MAXPRICE, "FollowF3": True})
     python_view(ck, q)
     # the grid through the numpy environment (tick 2): on-grid rows are queued whatever the unused fields of the other rows
     # of the batch hold, off-grid new-order rows raise ValueError
